@@ -41,7 +41,7 @@ TEXT = {
              "incl. terminator, const and non-const) equal to the reference prefix, and for Tracked elements "
              "the live set is exactly the set of container elements; at the end constructions == destructions. "
              "Millions of histories per run, the large majority offering more than the remaining room at least "
-             "once. Nothing is established beyond the explored histories, capacities and element types.",
+             "once. Nothing is established beyond the explored histories, capacities and element types. Initializer lists are read back after the construction; resize is also called with SIZE_MAX-like arguments.",
     "note": "Trusted: libstdc++ std::vector/std::string as the reference, clang ASan/UBSan and manual ASan "
             "poisoning, the harness' Tracked type. The std_portable.h twins are compiled into a renamed "
             "namespace (harness-side #define) so both implementations are really exercised in one binary. A "
